@@ -41,6 +41,7 @@ type hxCmd struct {
 	code   [3]byte
 	mark   string
 	posKey string
+	deviated bool // the reply was not the expected one
 }
 
 type hxCommit struct {
@@ -69,6 +70,7 @@ type hxSrv struct {
 	greeting   string
 	monitor    bool // raise protocol-legality assertions (C04)
 	failPos    string // if set: only replies at this position key may deviate
+	cleanupRset bool  // with failPos: the RSET right after the deviating reply may deviate too
 	failVerb   string // if set: only replies to this verb may deviate
 	multiline  bool   // every reply (other than EHLO's) is sent as a two-line reply
 	wideEOD    bool   // the reply to end-of-data may also be a 1yz or 3yz reply
@@ -168,7 +170,9 @@ func (s *hxSrv) pick(c *hxCmd, ok string) (code [3]byte, drop bool) {
 	k := s.posCount[key]
 	s.posCount[key] = k + 1
 	c.posKey = key + string(rune('0'+k))
-	if s.onlyOK || (s.failPos != "" && s.failPos != c.posKey) || (s.failVerb != "" && s.failVerb != key) {
+	// cleanupRset: the RSET that directly follows the one deviating reply may deviate as well
+	cleanup := s.cleanupRset && key == "RSET" && s.devs == 1 && len(s.cmds) >= 2 && s.cmds[len(s.cmds)-2].deviated
+	if s.onlyOK || (s.failPos != "" && s.failPos != c.posKey && !cleanup) || (s.failVerb != "" && s.failVerb != key) {
 		return code, false
 	}
 	if s.maxDev >= 0 && s.devs >= s.maxDev {
@@ -193,6 +197,7 @@ func (s *hxSrv) pick(c *hxCmd, ok string) (code [3]byte, drop bool) {
 		return code, false
 	}
 	s.devs++
+	c.deviated = true
 	if d == 'X' {
 		return code, true
 	}
